@@ -262,6 +262,17 @@ func c13Body(cfg c13cfg) func() {
 			wd.a.ReadFaultAt = cfg.k
 		case "write-fault":
 			wd.a.WriteFaultAt = cfg.k
+		case "write-fault-soft":
+			// the k-th write fails, the receiving direction stays intact: a frame the peer sends a second later must not
+			// be delivered any more (the failure has to end the connection by itself, not the next pong timeout)
+			wd.a.WriteFaultAt, wd.a.WriteFaultSoft = cfg.k, true
+			simrt.Go("late-peer", func() {
+				simrt.Block("write-fault-happened", func() bool { return wd.a.WriteFaulted })
+				later := false
+				simrt.NewTimer(time.Second, 0, "late-peer", func() { later = true })
+				simrt.Block("one-second-later", func() bool { return later })
+				wd.a.Inject(fakews.Frame{Type: fakews.BinaryMessage, Data: []byte("\x01{\"late\":1}")})
+			})
 		}
 		local := strings.HasPrefix(cfg.kind, "local")
 		closeDone := 0
@@ -314,6 +325,11 @@ func c13Body(cfg c13cfg) func() {
 				}
 			}
 		}
+		for _, m := range wd.r.incoming {
+			if strings.Contains(m, "late") {
+				simrt.Fail("C13|message-after-write-failure", "a frame the peer sent one second after a write of the connection had failed was still delivered (%s)", cfg)
+			}
+		}
 		limit := 0
 		if len(wd.r.errorAt) > 0 {
 			limit = wd.r.errorAt[0]
@@ -353,6 +369,9 @@ func c13Scenarios(r *hx.Run) []hx.Scenario {
 	}
 	for k := 1; k <= 4; k++ { // 2 data writes, a ping at 50 s, and one more
 		cfgs = append(cfgs, c13cfg{kind: "write-fault", k: k})
+	}
+	for k := 1; k <= 4; k++ {
+		cfgs = append(cfgs, c13cfg{kind: "write-fault-soft", k: k})
 	}
 	for _, code := range []int{1000, 1001, 1005, 4001, 4452, 4500} {
 		cfgs = append(cfgs, c13cfg{kind: "peer-close", code: code})
